@@ -37,7 +37,7 @@ RULES = [
     (("PkgResolver.getPackageDependencies", "options"), ("perm-thm", "C01 lowest_perm_invariant (explicit (len, key) tie-break)")),
     (("PkgResolver.getPackageDependencies", "parents"), ("comm", "copy of a set")),
     (("disqualifyDifference", ""), ("perm-thm", "C14 dq_perm_invariant (result is a set; reason strings name an arbitrary other arch)")),
-    (("newPkgResolver", "pkgNameMap"), ("perm-thm-partial", "provider order inside nameMap[virtual]; first-minimum of a consistent comparator is order independent (C01 minFunc_unique_min); comparator consistency repaired by F08b; exercised by corr:resolver on fresh objects")),
+    (("newPkgResolver", "pkgNameMap"), ("perm-thm", "provider order inside nameMap[virtual]: C01 resolve_order_irrelevant (whole resolution independent of the order; from nameMap_order_irrelevant + comparePackages_swo + comparePackages_eq_same_name + minFunc_perm_invariant, dq read as a set); needs the comparator repaired by F08b — resolve_order_dependent_pinned is the witness on the pinned comparator; also exercised by corr:resolver on fresh objects")),
     (("APKFS.ReadDir", ""), ("off-path", "NewAPKFS has no caller on the build path")),
     (("NewAPKFS", ""), ("off-path", "NewAPKFS has no caller on the build path")),
     (("memFS.ListXattrs", ""), ("comm", "copy — C01 insert_perm_lookup")),
